@@ -9,6 +9,7 @@ import (
 
 	ipfslog "berty.tech/go-ipfs-log"
 	"berty.tech/go-ipfs-log/iface"
+	"berty.tech/go-orbit-db/verifhook"
 	cid "github.com/ipfs/go-cid"
 	"github.com/libp2p/go-libp2p/core/event"
 	"github.com/libp2p/go-libp2p/p2p/host/eventbus"
@@ -150,6 +151,8 @@ func (r *replicator) GetQueue() []cid.Cid {
 }
 
 func (r *replicator) Load(ctx context.Context, entries []ipfslog.Entry) {
+	verifhook.Point("replicator.load.enter", Replicator(r), entries)
+	defer verifhook.Point("replicator.load.exit", Replicator(r))
 	cidsStrings := make([]string, len(entries))
 	for i, e := range entries {
 		cidsStrings[i] = e.GetHash().String()
@@ -189,6 +192,7 @@ func (r *replicator) Load(ctx context.Context, entries []ipfslog.Entry) {
 	}
 	r.muProcess.Unlock()
 
+	verifhook.Point("replicator.load.registered", Replicator(r))
 	wg.Wait()
 }
 
@@ -204,6 +208,7 @@ func (r *replicator) processOne(ctx context.Context, wg *sync.WaitGroup) error {
 		r.logger.Warn("process item ended", zap.Error(err))
 	}
 
+	verifhook.Point("replicator.entry.beforeDone", Replicator(r), e.GetHash())
 	// mark this process has done
 	r.processEntryDone(e)
 	return nil
@@ -277,6 +282,7 @@ func (r *replicator) processHash(ctx context.Context, item processItem) ([]cid.C
 		ShouldExclude: r.shouldExclude,
 	})
 
+	verifhook.Point("replicator.fetch.done", Replicator(r), hash, err)
 	if err != nil {
 		return nil, fmt.Errorf("unable to fetch log: %w", err)
 	}
@@ -317,6 +323,7 @@ func (r *replicator) generateEmitter(bus event.Bus) error {
 }
 
 func (r *replicator) waitForProcessSlot(ctx context.Context) (e processItem, err error) {
+	verifhook.Point("replicator.slot.before", Replicator(r))
 	if err := r.sem.Acquire(ctx, 1); err != nil {
 		return nil, fmt.Errorf("failed to acquire process slot: %w", err)
 	}
@@ -328,6 +335,7 @@ func (r *replicator) waitForProcessSlot(ctx context.Context) (e processItem, err
 	r.tasks[e.GetHash()] = stateFetching
 
 	r.muProcess.Unlock()
+	verifhook.Point("replicator.slot.dequeued", Replicator(r), e.GetHash())
 	return
 }
 
@@ -414,6 +422,7 @@ func (r *replicator) idle() {
 	r.muBuffer.Lock()
 
 	if len(r.buffer) > 0 {
+		verifhook.Point("replicator.loadend.emit", Replicator(r), r.buffer)
 		if err := r.emitters.evtLoadEnd.Emit(NewEventLoadEnd(r.buffer)); err != nil {
 			r.logger.Warn("unable to emit event load end", zap.Error(err))
 		}
